@@ -76,6 +76,10 @@ def main():
             from . import checks_config
 
             checks_config.hashseeds(rep, 60 if a.tier == "quick" else 600, 17, prop="C11")
+            # the real scheduler process killed along its launch path, then the same experiment again
+            from . import checks_restart
+
+            checks_restart.run(rep, a.tier)
         return rep.finish()
     print(f"no check for {a.prop}", file=sys.stderr)
     return 2
